@@ -16,6 +16,9 @@ import (
 )
 
 // case ids of this package start here (one runner evidence table for all packages)
+// directory of this package inside the repository (race signatures are made relative to the repository root)
+const vC18PkgDir = "consensus/crdt"
+
 const vC18IDBase = 600
 
 var vC18Plan = []vC18Scen{{Name: "crdt-batching", Ms: 900, Workers: 6}}
